@@ -42,6 +42,11 @@ pub fn tok_menu() -> Vec<String> {
     m.push("[".repeat(255));
     m.push("[".repeat(256));
     m.push("{a: ".repeat(255));
+    // a block scalar whose content indentation is w, followed by a line of exactly w spaces
+    // (the `indent >= bufmaxlen - 2` path of skip_block_scalar_indent, for capacities 8 and 16)
+    for w in [6usize, 7, 8, 14, 15, 16] {
+        m.push(format!("|\n{sp}a\n{sp}", sp = " ".repeat(w)));
+    }
     for s in ["|9", ">1-", "|+", "\"aaaaaaaaaaaa\\x41", "\"aaaaaaaaaaaaaaé", "\"aaaaaaaaaa\\U0001F600", "%YAML 1.2\n", "%TAG !e! tag:e:\n", "---\n", "...\n", "!e!x ", "!<v> ", "&a ", "*a", "\n  ", "\n    ", "# c", "\r\n", "é", "\t", "\""] {
         m.push(s.to_string());
     }
